@@ -14,15 +14,15 @@ import (
 
 func init() {
 	register(&Property{
-		ID:        "C26",
-		Title:     "PromQL expressions print and re-parse to the same tree",
-		Technique: "field-set agreement (engine E9) between the parser side (which fields of each AST node the grammar actions and constructors write) and the printer side (which fields String/Pretty and their helpers read), minus a frozen table of derived fields; sibling rule for the modifier fields a range selector prints itself and must blank on the inner selector's copy; enum tables for item types and node kinds; entry-point rule for the panic-to-error recovery",
-		DesignRef: "DESIGN.md §5 C26",
-		Level: "Decides that every field of an AST node that parsing can set is consulted by the printer (or is in the declared table of derived / positional fields), that the range selector blanks on its copy of the inner selector exactly the modifier fields it prints itself, that every operator/aggregator/keyword item type has a spelling, that every concrete node type is handled by the child iterator and the pretty printer, and that every parse entry point converts parser panics into errors.",
-		Note:     "Trusted: go/packages, go/types; rule tables in checker/c26.go.",
-		Covers:   "promql/parser: ast.go node structs, generated_parser.y.go / parse.go writers, printer.go / prettier.go readers, MatrixSelector.String vs atOffset, ItemTypeStr/key tables, ChildrenIter, Prettify, ParseExpr/ParseMetric/ParseMetricSelector/ParseSeriesDesc recovery.",
-		NotCover: "that the printed text re-parses to an equal tree (operator precedence, quoting, number formatting), totality of the parser.",
-		Run:      runC26,
+		ID:             "C26",
+		Title:          "PromQL expressions print and re-parse to the same tree",
+		Technique:      "field-set agreement (engine E9) between the parser side (which fields of each AST node the grammar actions and constructors write) and the printer side (which fields String/Pretty and their helpers read), minus a frozen table of derived fields; sibling rule for the modifier fields a range selector prints itself and must blank on the inner selector's copy; enum tables for item types and node kinds; entry-point rule for the panic-to-error recovery",
+		DesignRef:      "DESIGN.md §5 C26",
+		Level:          "Decides that every field of an AST node that parsing can set is consulted by the printer (or is in the declared table of derived / positional fields), that the range selector blanks on its copy of the inner selector exactly the modifier fields it prints itself, that every operator/aggregator/keyword item type has a spelling, that every concrete node type is handled by the child iterator and the pretty printer, and that every parse entry point converts parser panics into errors.",
+		Note:           "Trusted: go/packages, go/types; rule tables in checker/c26.go.",
+		Covers:         "promql/parser: ast.go node structs, generated_parser.y.go / parse.go writers, printer.go / prettier.go readers, MatrixSelector.String vs atOffset, ItemTypeStr/key tables, ChildrenIter, Prettify, ParseExpr/ParseMetric/ParseMetricSelector/ParseSeriesDesc recovery.",
+		NotCover:       "that the printed text re-parses to an equal tree (operator precedence, quoting, number formatting), totality of the parser.",
+		Run:            runC26,
 		MinObligations: 40,
 	})
 }
